@@ -259,6 +259,8 @@ pub struct Runner {
     last_kinds: Vec<(&'static str, u64)>,
     /// result and ledger of the most recent step (used by the twin driver)
     pub last: Option<(ExecOut, Vec<Xfer>, PreQ)>,
+    /// C16: the chain as it was just before the Liquidate of the step with this index ran (same block)
+    pub pre_liq: Option<(usize, crate::world::Snap)>,
 }
 
 impl Runner {
@@ -336,6 +338,7 @@ impl Runner {
             trigrams: BTreeSet::new(),
             last_kinds: vec![],
             last: None,
+            pre_liq: None,
         })
     }
 
@@ -363,6 +366,9 @@ impl Runner {
         // probes that must see the pre-state (fault enumeration of this very operation)
         if step.probes.contains(&Probe::FaultEnum) {
             oracles::c08::fault_enum(self, step);
+        }
+        if self.prop == "C16" && matches!(step.op, Op::Liquidate { .. }) {
+            self.pre_liq = Some((idx, self.w.snapshot()));
         }
         let out = self.w.exec(&step.actor, &step.op, step.funds, step.fault.clone());
         if out.ok {
